@@ -204,4 +204,34 @@ theorem tls13_after_finished_exact (H : Crypto.Prims) (P : Prims) (L : SealLaws 
   refine ⟨by rw [hxc, hxs]; simp, a1, ?_⟩
   rw [Session.run_append, b2, a1]
 
+/-- A3 — session ∘ record layer ∘ builder: for a session that has exported nothing yet, the conversation
+    `OutputBuilder.build` makes of the traffic after ANY history of application-data records (all versions, all
+    classes) exists whenever every record has a carrier packet, is a well-formed TCP conversation (handshake, gap-free,
+    consistently acknowledged: the spec reassembler accepts it) and its two payload streams are exactly the
+    concatenations of the sender's plaintexts of each direction, in order; its data segments are those of the
+    application entries only. -/
+theorem app_export_exact (H : Crypto.Prims) (P : Prims) (L : SealLaws P) (kl : List Keylog.Key) (cls : CipherClass)
+    (macLen : Nat) (ver : Bytes) (hv : ver.length = 2) (evs : List Ev) (cars : List (List Nat))
+    (hc : cars.length = evs.length) (hne : ∀ c ∈ cars, c ≠ []) (x : Snd) (s : Session.St Dec)
+    (hs : Ready cls macLen x s) (hs0 : s.traffic = [])
+    (happ : ∀ e ∈ evs, IsAppSend e) (hev : ∀ e ∈ evs, EvOk cls macLen e)
+    (hq : max x.c.seq x.s.seq + evs.length ≤ seqLimit) (m : Bool) (ts : Nat → Nat) :
+    ∃ fs, TcpOut.build ((Session.run (Pipeline.ops H P kl) m s (wireRecs (run P L cls ver x evs) cars)).traffic.map
+            (toRec ts)) = some fs ∧
+      Spec.reassemble fs = some (plainOf false evs, plainOf true evs) := by
+  obtain ⟨h1, h2, _⟩ := app_phase_exact H P L kl cls macLen ver hv evs cars hc x s hs happ hev hq m
+  rw [hs0, List.nil_append] at h2
+  have htot : (TcpOut.build ((Session.run (Pipeline.ops H P kl) m s
+      (wireRecs (run P L cls ver x evs) cars)).traffic.map (toRec ts))).isSome := by
+    apply Props.C06.build_total
+    intro r hr
+    rw [h2] at hr
+    obtain ⟨e, he, rfl⟩ := List.mem_map.mp hr
+    obtain ⟨rr, hrr, hrec⟩ := zipWith_entries_record _ _ e he
+    have := hne _ (wireRecs_carriers _ _ rr hrr)
+    simpa [toRec, hrec] using this
+  obtain ⟨fs, hfs⟩ := Option.isSome_iff_exists.mp htot
+  refine ⟨fs, hfs, ?_⟩
+  rw [Props.C06.reassemble_build _ _ hfs, h2, dirBytes_entries false ts evs _ h1, dirBytes_entries true ts evs _ h1]
+
 end TLX.Props.C01Pipeline
